@@ -21,8 +21,11 @@ pub const PLAIN_ATOMS: &[&str] =
 
 pub const KNOWN_TYPES: &[&str] = &["cargo", "gem", "golang", "maven", "npm", "nuget", "pypi"];
 
-pub const OTHER_TYPES: &[&str] =
-    &["generic", "deb", "rpm", "docker", "github", "oci", "t", "x-y", "a.b", "c++", "t1", "conan"];
+pub const OTHER_TYPES: &[&str] = &[
+    "generic", "deb", "rpm", "docker", "github", "oci", "t", "x-y", "a.b", "c++", "t1", "conan",
+    // Valid type strings need not start with a letter.
+    "7zip", "3d", ".net", "+x", "-y", "0",
+];
 
 const TYPE_TAIL: &[u8] = b"abcxyzABCXYZ019.+-";
 const KEY_TAIL: &[u8] = b"abckzABCKZ019._-";
@@ -79,7 +82,8 @@ pub fn type_string(rng: &mut Rng, known_bias: bool) -> String {
 pub fn qualifier_key(rng: &mut Rng) -> String {
     const COMMON: &[&str] = &[
         "arch", "os", "repository_url", "download_url", "vcs_url", "file_name", "classifier",
-        "type", "k", "a", "b", "z", "tag", "channel", "x.y", "a-b", "k_1",
+        "type", "k", "a", "b", "z", "tag", "channel", "x.y", "a-b", "k_1", "check_only", "checks", "checksumz",
+        "_x", "c", "d", "distro", "ext", "platform", "variant",
     ];
     let base = if rng.chance(2, 3) {
         (*rng.pick(COMMON)).to_owned()
@@ -103,7 +107,8 @@ pub fn component(rng: &mut Rng, rich: bool) -> String {
     if rng.chance(1, 40) {
         // A long value (canonical strings beyond 256 and 512 bytes): buffers, chunking, fast paths.
         let unit = *rng.pick(&["abcdefghij", "https://example.com/path/", "0123456789abcdef", "é", "x", "a b", "%41", "Lib-"]);
-        let target = *rng.pick(&[40usize, 120, 260, 300, 520, 1100]);
+        // (Very rarely beyond 64 KiB: length fields, u16 counters.)
+        let target = if rng.chance(1, 60) { 66_000 } else { *rng.pick(&[40usize, 120, 260, 300, 520, 1100]) };
         let mut s = String::new();
         while s.len() < target {
             s.push_str(unit);
@@ -151,7 +156,9 @@ pub fn components(rng: &mut Rng, known_bias: bool) -> Components {
         c.version = component(rng, rich);
     }
     if rng.chance(1, 2) {
-        let n = rng.range(1, 4);
+        // Mostly a handful of qualifiers, now and then more than eight (search strategies that
+        // switch with the size of the list).
+        let n = if rng.chance(1, 12) { rng.range(9, 14) } else { rng.range(1, 4) };
         for _ in 0..n {
             let k = qualifier_key(rng);
             if c.qualifiers.iter().any(|(e, _)| e.eq_ignore_ascii_case(&k))
